@@ -166,6 +166,11 @@ func evalC15Set(v *engine.Verdict, x *C15Case) {
 			p = vs.Typed(engine.Types[w.Type])
 		}
 		val := engine.MakeValue(w.Dyn, w.Tok)
+		if !engine.IsIface(w.Type) && w.Via > 0 {
+			// a value of ANOTHER concrete type that is assignable to the
+			// declared one (an unnamed struct type for a defined one)
+			val = engine.MakeValue(w.Via-1, w.Tok)
+		}
 		if engine.IsIface(w.Type) && !w.Raw {
 			st := w.Type
 			if w.Via > 0 {
@@ -211,11 +216,15 @@ func evalC15Set(v *engine.Verdict, x *C15Case) {
 	typeSeen := map[int]bool{}
 	uniqTypes := true
 	hasIface, rawIface, viaIface := false, false, false
+	viaConcrete := false
 	for i, w := range x.Vals {
 		if typeSeen[w.Type] {
 			uniqTypes = false
 		}
 		typeSeen[w.Type] = true
+		if !engine.IsIface(w.Type) && w.Via > 0 {
+			viaConcrete = true
+		}
 		if engine.IsIface(w.Type) {
 			// an interface-typed value travels under its interface type
 			// (stored as such, not as a bare concrete value), and no other
@@ -243,6 +252,9 @@ func evalC15Set(v *engine.Verdict, x *C15Case) {
 		// (v.Value = reflect.ValueOf(impl)): it still travels under the
 		// entry's declared type
 		v.Class("args-round-trip-with-concrete-value-in-interface-entry")
+	}
+	if uniqTypes && viaConcrete {
+		v.Class("args-round-trip-with-value-of-another-assignable-type")
 	}
 	if uniqTypes && viaIface {
 		v.Class("args-round-trip-with-value-of-another-interface-type-in-interface-entry")
@@ -830,6 +842,17 @@ func genC15(g engine.G) *engine.Case {
 					if len(cands) > 0 {
 						val.Via = engine.Pick(g, cands) + 1
 					}
+				}
+			}
+			if !engine.IsIface(val.Type) && g.Pct(30) {
+				var cands []int
+				for t2 := 0; t2 < engine.NumTypes; t2++ {
+					if t2 != val.Type && !engine.IsIface(t2) && engine.Types[t2].AssignableTo(engine.Types[val.Type]) {
+						cands = append(cands, t2)
+					}
+				}
+				if len(cands) > 0 {
+					val.Via = engine.Pick(g, cands) + 1
 				}
 			}
 			if g.Pct(55) {
